@@ -163,13 +163,19 @@ func oneGroup(s string) bool {
 }
 
 // handWritten rewrites a desired realm the way a person writes the document: CHECK expressions without the parentheses
-// of the CHECK clause itself (the inspector keeps them).
+// of the CHECK clause itself (the inspector keeps them), expression defaults inside the parentheses of the DEFAULT clause (the inspector drops them).
 func handWritten(r *schema.Realm) {
 	for _, s := range r.Schemas {
 		for _, t := range s.Tables {
 			for _, a := range t.Attrs {
 				if ck, ok := a.(*schema.Check); ok && oneGroup(ck.Expr) {
 					ck.Expr = strings.TrimSpace(ck.Expr[1 : len(ck.Expr)-1])
+				}
+			}
+			// expression defaults with the parentheses SQLite's DEFAULT clause demands: default = sql("(lower('A'))")
+			for _, c := range t.Columns {
+				if x, ok := c.Default.(*schema.RawExpr); ok && !oneGroup(x.X) && strings.ContainsAny(x.X, "( +|") {
+					x.X = "(" + x.X + ")"
 				}
 			}
 		}
